@@ -47,7 +47,7 @@ def teardown(ctx):
 
 
 def cases(ctx):
-    n = 320 if ctx.tier == 'quick' else 20000
+    n = 320 if ctx.tier == 'quick' else 60000
     for i in range(n):
         yield {'i': i}
 
